@@ -19,11 +19,11 @@ DRV = "molli.pipeline.driver:DriverBase"
 
 def mk_job(V, explicit=False):
     I, st = V.I, V.st
-    j = Obj(V.cls(JOB), {}, tag="job")
-    j.fields.update({"return_files": ("out.xyz",), "executable": V.sym("job_exe", "str") if explicit else None,
-                     "nprocs": V.sym("job_np", "int") if explicit else None, "memory": None,
-                     "envars": DictV([("JOBVAR", V.sym("job_env", "str"))]) if explicit else DictV(),
-                     "name": "jobname", "__doc__": "", "_prep": Opaque("obj:prep"), "_post": Opaque("obj:post")})
+    # built by the real constructor (whatever bookkeeping attributes it sets up are there), then given opaque prep/post callables
+    j = I.call(V.cls(JOB), [], {"return_files": ("out.xyz",), "executable": V.sym("job_exe", "str") if explicit else None,
+                                "nprocs": V.sym("job_np", "int") if explicit else None, "memory": None,
+                                "envars": DictV([("JOBVAR", V.sym("job_env", "str"))]) if explicit else None, "name": "jobname", "doc": ""})
+    j.fields.update({"_prep": Opaque("obj:prep"), "_post": Opaque("obj:post")})
     if explicit:
         V.assume(z3.And(z3.Length(j.fields["executable"].z) > 0, j.fields["nprocs"].z > 0))
     return j
@@ -65,6 +65,13 @@ def _get(V):
     b1 = I.call(get, [job, d1, dcls], {})
     b2 = I.call(get, [job, d2, dcls], {})
     b1_again = I.call(get, [job, d1, dcls], {})
+    # a driver may be reconfigured between two uses: the next job bound through it sees the new settings
+    new_np = V.sym("d1_np_later", "int")
+    V.assume(new_np.z > 0)
+    d1.fields["nprocs"] = new_np
+    b1_later = I.call(get, [job, d1, dcls], {})
+    V.ensure("post/reconfigured-driver:nprocs-of-the-moment-of-use", I.eq(b1_later.fields.get("nprocs"), shared_before["nprocs"] if explicit else new_np))
+    d1.fields["nprocs"] = b1.fields.get("nprocs") if not explicit else d1.fields["nprocs"]
     for nm, b, d in (("first", b1, d1), ("second", b2, d2), ("first-again", b1_again, d1)):
         exp_exe = job_exe if False else (shared_before["executable"] if explicit else d.fields["executable"])
         exp_np = shared_before["nprocs"] if explicit else d.fields["nprocs"]
@@ -147,7 +154,8 @@ def _run_local(V):
     ftext, fbin = V.sym("text_content", "str"), V.sym("bin_content", "bytes")
     job = Obj(V.cls("molli.pipeline.job:JobInput"), {
         "jid": V.sym("jid", "str"), "commands": ListV([(c, n) for c, n in zip(cmds, names)]),
-        "files": DictV([("in.txt", ftext), ("in.bin", fbin)]), "return_files": ("r1", "r2"), "envars": jobenv, "timeout": None}, tag="jobinput")
+        "files": DictV([("in.txt", ftext), ("in.bin", fbin)]), "return_files": ("r1", "r2"), "envars": jobenv,
+        "timeout": V.sym("timeout", "real") if V.choose([False, True], "timeout-given") else None}, tag="jobinput")
     H = V.sym("input_hash", "str")
     I.stubs["molli.pipeline.job:JobInput.load"] = lambda I_, fv, a, kw: job
     V.cls("molli.pipeline.job:JobInput").ns["hash"] = PropertyV(Builtin("hash", lambda i, a, kw: H))
@@ -167,8 +175,10 @@ def _run_local(V):
     I.opaque_globals[("molli.pipeline.runner", "arg_parser")] = Obj(I.builtins["object"], {"parse_args": Builtin("parse_args", lambda i, a, kw: parsed)})
     I.ext_models["os.getcwd"] = Builtin("os.getcwd", lambda i, a, kw: "ORIGINAL_CWD")
     I.ext_models["os.chdir"] = Builtin("os.chdir", lambda i, a, kw: st.event("chdir", a[0]))
-    base_env = DictV([("PATH", V.sym("path_env", "str"))])
-    I.ext_models["os.environ"] = Obj(I.builtins["object"], {"copy": Builtin("environ.copy", lambda i, a, kw: DictV(list(zip(base_env.keys, base_env.vals))))})
+    # the runner's own environment also defines JV: the job's value must win
+    base_jv = V.sym("jv_of_the_runner", "str")
+    base_env = DictV([("PATH", V.sym("path_env", "str")), ("JV", base_jv)])
+    I.ext_models["os.environ"] = base_env
     I.ext_models["sys.stderr"] = Opaque("obj:stderr")
     I.ext_models["shlex.split"] = Builtin("shlex.split", lambda i, a, kw: Opaque("obj:argv", (a[0],)))
     I.ext_models["subprocess.DEVNULL"] = Opaque("obj:DEVNULL")
@@ -183,10 +193,19 @@ def _run_local(V):
     runs = []
     captured = {}
 
+    TE = ClassV("TimeoutExpired", builtin=True, bases=[I.builtins["Exception"]])
+    TE.compute_mro()
+    I.ext_models["subprocess.TimeoutExpired"] = TE
+    timed_out = []
+
     def run(i, a, kw):
         n = len(runs)
         runs.append({"argv": a[0], "cwd": kw.get("cwd"), "env": kw.get("env"), "stdout": kw.get("stdout"), "stderr": kw.get("stderr")})
         st.event("run", a[0])
+        if kw.get("timeout") is not None and st.branch(st.fresh(f"times_out{n}", z3.BoolSort()), f"command{n}-times-out"):
+            # subprocess.run(timeout=...) kills the child and raises: there is no return code for this command
+            timed_out.append(n)
+            i.raise_py(TE, "timed out")
         return Obj(I.builtins["object"], {"returncode": rcs[n]}, tag="proc")
     I.ext_models["subprocess.run"] = Builtin("subprocess.run", run)
     written = []
@@ -219,6 +238,13 @@ def _run_local(V):
         return
     code = out.exc.fields["args"][0]
     nrun = len(runs)
+    if timed_out:
+        # a command that was killed by its time limit is a failed command: non-zero exit status, non-zero recorded exit code, nothing after it runs
+        V.ensure("post/timed-out-command-is-a-failure", z3.And(Z0(code) != 0, z3.BoolVal(timed_out == [nrun - 1])))
+        if len(dumps) == 1 and isinstance(dumps[0][0], Obj):
+            V.ensure("post/timed-out-command-recorded-as-failed", z3.Not(I.eq(dumps[0][0].fields["exitcode"], 0)) if not isinstance(I.eq(dumps[0][0].fields["exitcode"], 0), bool)
+                     else z3.BoolVal(not I.eq(dumps[0][0].fields["exitcode"], 0)))
+        return
     # commands executed = prefix up to and including the first failing one, in order
     V.ensure("post/commands-run-in-order", z3.BoolVal(all(isinstance(r["argv"], Opaque) and r["argv"].args[0] is cmds[i] for i, r in enumerate(runs))))
     for i in range(nrun - 1):
@@ -228,7 +254,9 @@ def _run_local(V):
     all_ok = z3.And(*[rcs[i].z == 0 for i in range(nrun)]) if nrun == k else z3.BoolVal(False)
     V.ensure("post/ran-in-the-scratch-directory-with-merged-environment",
              z3.BoolVal(all(isinstance(r["cwd"], Obj) and r["cwd"].fields["s"] == td_path and isinstance(r["env"], DictV) and "PATH" in r["env"].keys
-                            and (jobenv is None or "JV" in r["env"].keys) for r in runs)))
+                            and "JV" in r["env"].keys and r["env"] is not base_env
+                            and r["env"].vals[r["env"].keys.index("JV")] is (jobenv.vals[0] if jobenv is not None else base_jv) for r in runs)
+                        and base_env.keys == ["PATH", "JV"] and base_env.vals[1] is base_jv))
     # input files materialised with exact contents before the first command
     writes = [(e[1].fields["path"], e[1].fields["mode"], e[2]) for e in tr if e[0] == "write"]
     first_run = next((n for n, e in enumerate(tr) if e[0] == "run"), len(tr))
